@@ -77,11 +77,10 @@ Fixpoint from_long_loop (fuel : nat) (v base : Z) (charset : Z -> option byte) (
 Definition from_long (v prefix base : Z) (charset : Z -> option byte) : outcome bytes :=
   match from_long_loop (S (Z.to_nat (Z.log2 v))) v base charset [] with
   | Ret digits =>
-    if prefix <=? 0 then Ret digits
-    else match charset 0 with
-         | None => Raise E_INDEX
-         | Some z => Ret (repeat z (Z.to_nat prefix) ++ digits)
-         end
+    match charset 0 with
+    | None => Raise E_INDEX
+    | Some z => Ret (repeat z (Z.to_nat prefix) ++ digits)
+    end
   | e => e
   end.
 
